@@ -241,6 +241,24 @@ MUTANTS = [
     ('C16', 'demo-history-misses-base', DS,
      "        size -= len(r)\n        if size:",
      "        size -= len(r)\n        if size and not r:"),
+    ('C17', 'copy-drops-status', BS,
+     "        dest.tpc_begin(transaction, tid, transaction.status)",
+     "        dest.tpc_begin(transaction, tid)"),
+    ('C17', 'iterator-uncreate-as-empty', FS,
+     "                    # instead of a pickle to indicate this.\n                    data = None",
+     "                    # instead of a pickle to indicate this.\n                    data = b''"),
+    # (mutants that only make fsrecover lose transactions *after* the damage
+    # -- giving up at the first error, a scan that overshoots -- break no
+    # stated property and are not listed)
+    ('C17', 'recover-length-check-off-by-one', RC,
+     "    if pos + (tl + 8) > file_size:\n        error(\"bad transaction length at %s\", pos)",
+     "    if pos + (tl + 8) >= file_size:\n        error(\"bad transaction length at %s\", pos)"),
+    ('C17', 'recover-never-gives-up-scanning', RC,
+     "        data = f.read(8096)\n        if not data:\n            return 0",
+     "        data = f.read(8096)\n        if not data:\n            pos = 4\n            continue"),
+    ('C17', 'record-iterator-short-data', FS,
+     "            if h.plen:\n                data = self._file.read(h.plen)\n            else:\n                if h.back == 0:",
+     "            if h.plen:\n                data = self._file.read(h.plen)[:-1] + b'.'\n            else:\n                if h.back == 0:"),
 ]
 
 
